@@ -42,6 +42,7 @@ func c01variants(tier string) []c01variant {
 		{name: "P:prune-everything+restart", pruning: [2]int64{0, 0}, restart: "every"},
 		{name: "P:keep-recent-1-every-2", pruning: [2]int64{1, 2}, mountPerm: 5},
 		// an operator may change node-local settings across a restart: lazy loading, pruning window
+		{name: "Q+R:historical-queries-and-restarts", pruning: [2]int64{0, 1}, restart: "every", traffic: true},
 		{name: "R:reopen-lazy", pruning: [2]int64{1, 3}, restart: "every", reopen: []c01reopen{{[2]int64{1, 3}, true}}},
 		{name: "R:reopen-with-larger-window", pruning: [2]int64{0, 0}, restart: "middle", reopen: []c01reopen{{[2]int64{1, 0}, false}}},
 		{name: "R:reopen-lazy+changing-pruning", pruning: [2]int64{1, 3}, restart: "every", reopen: []c01reopen{{[2]int64{0, 0}, false}, {[2]int64{2, 0}, true}, {[2]int64{0, 2}, true}, {[2]int64{1, 3}, false}}},
@@ -72,6 +73,10 @@ func trafficAround(e chain.Event) (pre, post []chain.Event) {
 		chain.Event{Kind: "query", Path: "/store/pos/subspace", Data: []byte{0x21}},
 		chain.Event{Kind: "query", Path: "/app/version"},
 		chain.Event{Kind: "query", Path: "/store/pos/key", Data: []byte{0x01}, Prove: true},
+		// historical reads: a custom query and a store query one and two blocks back
+		chain.Event{Kind: "query", Path: "/custom/pos/validators", Data: []byte(`{"Page":1,"Limit":100}`), Height: -1},
+		chain.Event{Kind: "query", Path: "/custom/auth/supply", Height: -2},
+		chain.Event{Kind: "query", Path: "/store/auth/key", Data: append([]byte{0x01}, chain.Addr(3)...), Height: -1},
 	)
 	return
 }
@@ -301,6 +306,19 @@ func init() {
 			p4.MaxValidators = 10
 			all4.Pos = &p4
 			scs = append(scs, Scenario{Name: "4val-all-in-set-many-leavers", Cfg: all4, Alphabet: many, K: k, D: d - 1, Tail: 1})
+			// a block gas limit that the second or third transaction of a block crosses (the limit lives in
+			// the consensus parameters, which a reopened instance has to find again)
+			gl := gs[0]
+			gl.MaxBlockGas = 150000
+			send := func(from, to int) chain.Event { return txE(chain.TxSpec{Msg: "send", From: from, To: to, Amount: 1}) }
+			gasAlpha := []Choice{
+				multiB("[send,send,send]", send(3, 2), send(4, 2), send(2, 3)),
+				multiB("[stake,send,send,send]", txE(chain.TxSpec{Msg: "stake", From: 2, Amount: min}), send(3, 2), send(4, 2), send(3, 4)),
+				multiB("[send,send]", send(3, 2), send(4, 2)),
+				txB("send", chain.TxSpec{Msg: "send", From: 3, To: 2, Amount: 1}),
+				multiB("[unstake(k0),send,send,send,send]", txE(chain.TxSpec{Msg: "unstake", From: 0}), send(3, 2), send(4, 2), send(3, 4), send(4, 3)),
+			}
+			scs = append(scs, Scenario{Name: "2val-block-gas-limit", Cfg: gl, Alphabet: gasAlpha, K: 2, D: 2, Tail: 1})
 			// a genesis with history, as a state export produces it: signing infos and missed-block
 			// arrays for the validators and for six former validators
 			hist := gs[0]
